@@ -721,11 +721,12 @@ class LatinHypercubeGenerator(DOEGenerator):
 
         size = sum([meta['size'] for meta in design_vars.values()])
 
-        if self._samples is None:
-            self._samples = size
+        # the default number of samples follows the design variables of this call (the generator
+        # may be used again for another set of design variables).
+        samples = size if self._samples is None else self._samples
 
         # generate design
-        doe = self._lhs(size, samples=self._samples,
+        doe = self._lhs(size, samples=samples,
                         criterion=self._criterion,
                         iterations=self._iterations,
                         random_state=self._seed)
